@@ -16,13 +16,18 @@ SPEC = {
     "trusted": [
         "C07: translate/c07_remap_table.py (python3, fail closed) — regenerates coq/C07/RemapTable.v (type_defs, impls, rows, class_suffix) from dukebox/src/remap.rs and duke/src/{tree,visitor} on every run; it recognises a fixed set of body / expression shapes and reports anything else as an error of the check",
         "C07: the specification side is coq/C07/Spec.v (leaf reference types, closure over duke's type definitions, position rules, the explicit exclusions: generic signatures, invokedynamic / dynamic-constant names, local-variable and parameter names, InnerClass.inner_name, module and package names, unknown attributes) written by hand from the property text and JVMS 4",
+        "C07: coq/C07/WithC06.v instantiates the abstract remapper with C06's model of quill's BRemapperImpl (coq/C06/Model.v, theorems of Props/C06.v): C07_composes_with_C06 rests on C06's model being faithful (C06's own correspondence run)",
         "C07: coq/C07/Model.v models the default methods of quill's ARemapper/BRemapper traits and remap_jar_entry_name_java / the entry loop of remap by hand; tied to the code by the correspondence run; remap_enum_const uses C18's models of FieldDescriptorSlice::parse and FieldName::check_valid",
+        "C07: correspondence cases are written as text (grammar in coq/C07/Run.v), packed 7 bytes per Uint63 literal and decoded in Gallina (p_case / D7, evaluated by vm_compute with Coq's primitive 63-bit integers); a text that does not decode counts as a disagreement",
         "C07: the harness oracle spec_remap (harness/src/bin/c07/spec.rs) is written from the same specification of reference positions, not from remap.rs, and uses the remapper's own answers; the zip container, duke's class writer (C02) and, for reading the output, the independent parser harness/src/classfile/raw.rs are trusted as far as the comparison goes",
     ],
     "assumptions": [
         "entry names: every class entry is named <internal class name>.class (multi-release entries META-INF/versions/N/… are renamed by their path, not by the class inside — outside the hypothesis)",
         "the remapper does not send two entry names of the jar to the same name (IndexMap::insert would silently replace the first; modelled by im_insert and exercised by a separate stream)",
         "remapper answers are functions of their arguments (the harness records them as a finite table)",
+        "the super-type graph handed to quill's remapper is acyclic (its search recurses without bound on a cycle: C06's hypothesis acyclic_rank; the harness drops classes that would close a cycle)",
+        "the remapper does not rename java/lang/String (JVMS 4.7.2 ties string ConstantValues to a field of exactly that type; a jar remapped that way is rejected by the independent parser)",
+        "access flags are compared on the bits the JVMS defines (duke's flag structs cannot hold the others)",
     ],
     "stated_not_proved": [
         "every_ref_remapped_full / nothing_else_changes_full (coq/C07/Theory.v): the table theorems without the known_row restriction — refuted today by C07_every_ref_remapped_refuted / C07_nothing_else_changes_refuted (record components, module data)",
